@@ -543,6 +543,15 @@ func ruleErrSlot(c *Ctx, rule string) {
 			case isNamed(rt, "os", "File") && (f.Name() == "Sync" || f.Name() == "Seek"):
 				return f.Name()
 			}
+			// any other writer/reader layer put between the sorter and its files (a bufio.Writer, ...):
+			// the operations the property names — write, sync, seek, read — by method name
+			switch f.Name() {
+			case "Write", "WriteString", "Flush", "Sync", "Seek", "Read", "ReadFull", "Encode", "Decode":
+				res := f.Signature.Results()
+				if res.Len() > 0 && isErrorType(res.At(res.Len()-1).Type()) && !inModule(f) {
+					return f.Name()
+				}
+			}
 		}
 		return ""
 	}
